@@ -529,7 +529,11 @@ class Kernel(Module):
             # Did this Kernel eat the diag option?
             # If it does not return a LazyEvaluatedKernelTensor, we can call diag on the output
             if not isinstance(res, LazyEvaluatedKernelTensor):
-                if res.dim() == x1_.dim() and res.shape[-2:] == torch.Size((x1_.size(-2), x2_.size(-2))):
+                # A full covariance matrix has two more dimensions than its batch shape
+                # (which includes the kernel's own batch shape, and the input dimension if last_dim_is_batch)
+                batch_shape = torch.broadcast_shapes(x1_.shape[:-2], x2_.shape[:-2], self.batch_shape)
+                full_dim = len(batch_shape) + (3 if last_dim_is_batch else 2)
+                if res.dim() == full_dim and res.shape[-2:] == torch.Size((x1_.size(-2), x2_.size(-2))):
                     res = res.diagonal(dim1=-1, dim2=-2)
             return res
 
